@@ -22,24 +22,24 @@ import (
 
 // authPkt holds every input of the MAC as plain values, so that one bit of one field can be flipped.
 type authPkt struct {
-	version, tc        uint8
-	flowID             uint32
-	nextHdr            uint8
-	hdrLen             uint8
-	payloadLen         uint16
-	pathType           uint8
-	dt, dl, st, sl     uint8 // 2 bits each
-	dstIA, srcIA       [8]byte
-	dst, src           []byte
-	pk                 string // empty | onehop | scion | epic
-	rep                string // raw | decoded
-	rawPath            []byte
-	l4                 uint8
-	pld                []byte
-	alg                uint8
-	ts                 uint64
-	spi                uint32
-	key                []byte
+	version, tc    uint8
+	flowID         uint32
+	nextHdr        uint8
+	hdrLen         uint8
+	payloadLen     uint16
+	pathType       uint8
+	dt, dl, st, sl uint8 // 2 bits each
+	dstIA, srcIA   [8]byte
+	dst, src       []byte
+	pk             string // empty | onehop | scion | epic
+	rep            string // raw | decoded
+	rawPath        []byte
+	l4             uint8
+	pld            []byte
+	alg            uint8
+	ts             uint64
+	spi            uint32
+	key            []byte
 }
 
 func (p *authPkt) clone() *authPkt {
@@ -250,61 +250,121 @@ func runAuth(n int) {
 				p.rawPath = append(p.rawPath, scionRaw(rng, v.segs)...)
 			}
 			p.hdrLen = uint8((12 + 16 + len(p.dst) + len(p.src) + len(p.rawPath)) / 4)
-			base, built, err := p.mac()
-			if err != nil || !built {
-				w.Emit(vt.M{"ev": "error", "pk": v.pk, "spi": kind, "err": fmt.Sprint(err), "path": vt.Ints(p.rawPath)})
-				continue
-			}
-			flips := [][]any{}
-			observe := func(field string, off, bit int, q *authPkt) {
-				m, built, err := q.mac()
-				switch {
-				case !built:
-					flips = append(flips, []any{field, off, bit, 0, 0})
-				case err != nil: // the real code refuses the flipped packet: no authenticator at all
-					flips = append(flips, []any{field, off, bit, 1, 1})
-				case bytes.Equal(m, base):
-					flips = append(flips, []any{field, off, bit, 0, 1})
-				default:
-					flips = append(flips, []any{field, off, bit, 1, 1})
-				}
-			}
-			for _, f := range scalarFields {
-				for k := 0; k < f.bits; k++ {
-					q := p.clone()
-					q.flipScalar(f.name, k)
-					observe(f.name, 0, k, q)
-				}
-			}
-			byteFields := []struct {
-				name string
-				get  func(*authPkt) []byte
-			}{{"dstia", func(q *authPkt) []byte { return q.dstIA[:] }}, {"srcia", func(q *authPkt) []byte { return q.srcIA[:] }},
-				{"dsthost", func(q *authPkt) []byte { return q.dst }}, {"srchost", func(q *authPkt) []byte { return q.src }},
-				{"path", func(q *authPkt) []byte { return q.rawPath }}, {"payload", func(q *authPkt) []byte { return q.pld }}}
-			for _, f := range byteFields {
-				nb := len(f.get(p))
-				for off := 0; off < nb; off++ {
-					if f.name == "payload" && off >= 8 && off < nb-8 && rng.Intn(8) != 0 {
-						continue
-					}
-					for k := 0; k < 8; k++ {
-						q := p.clone()
-						f.get(q)[off] ^= 1 << uint(k)
-						observe(f.name, off, k, q)
-					}
-				}
-			}
-			q := p.clone()
-			q.pld = append(q.pld, 0)
-			observe("payloadsize", 0, 0, q)
-			if len(p.pld) > 0 {
-				q = p.clone()
-				q.pld = q.pld[:len(q.pld)-1]
-				observe("payloadsize", 1, 0, q)
-			}
-			w.Emit(vt.M{"ev": "auth", "pk": v.pk, "rep": v.rep, "segs": []int{v.segs[0], v.segs[1], v.segs[2]}, "spi": kind,
-				"dl": len(p.dst), "sl": len(p.src), "pathlen": len(p.rawPath), "flips": flips})
+			observeFlips(p, v, kind, rng, false)
 		}
 	}
+	// address sweep: every SPI kind x every combination of address lengths x IP / service address types
+	// (the "covered addresses" clause per DRKey type), on an empty and on a 3-segment path with peering flags
+	for si, kind := range spiKinds {
+		for dl := 0; dl < 4; dl++ {
+			for sl := 0; sl < 4; sl++ {
+				v := pathVariant{"empty", "raw", [3]int{}}
+				if (dl+sl+si)%2 == 1 {
+					v = pathVariant{"scion", []string{"raw", "decoded"}[(dl+si)%2], [3]int{2, 2, 1}}
+				}
+				p := &authPkt{version: 0, tc: uint8(rng.Intn(256)), flowID: uint32(rng.Intn(1 << 20)), nextHdr: 201,
+					payloadLen: uint16(rng.Intn(65536)), pk: v.pk, rep: v.rep, l4: 17, ts: uint64(rng.Int63n(1 << 48)),
+					spi: spiValue(kind, rng), key: make([]byte, 16), dl: uint8(dl), sl: uint8(sl)}
+				rng.Read(p.key)
+				rng.Read(p.dstIA[:])
+				rng.Read(p.srcIA[:])
+				p.dst, p.src = make([]byte, 4*(dl+1)), make([]byte, 4*(sl+1))
+				rng.Read(p.dst)
+				rng.Read(p.src)
+				if dl == 0 && (sl+si)%2 == 0 {
+					p.dt = 1 // service address
+					copy(p.dst, []byte{0, 2, 0, 0})
+				}
+				if sl == 0 && (dl+si)%2 == 0 {
+					p.st = 1
+					copy(p.src, []byte{0x80, 1, 0, 0})
+				}
+				p.pld = make([]byte, 9)
+				rng.Read(p.pld)
+				if v.pk == "scion" {
+					p.pathType, p.rawPath = 1, scionRaw(rng, v.segs)
+					for i := 0; i < 3; i++ { // peering flag on the middle segment, construction direction mixed
+						p.rawPath[4+8*i] = byte(i%2)<<1 | byte((i+si)%2)
+					}
+				}
+				p.hdrLen = uint8((12 + 16 + len(p.dst) + len(p.src) + len(p.rawPath)) / 4)
+				observeFlips(p, v, kind, rng, true)
+			}
+		}
+	}
+}
+
+// observeFlips computes the base authenticator of p with the real code, then the authenticator after every
+// single-bit flip of every field (addrOnly: only the address-related fields and the traffic class), and logs
+// one record.
+func observeFlips(p *authPkt, v pathVariant, kind string, rng *rand.Rand, addrOnly bool) {
+	base, built, err := p.mac()
+	if err != nil || !built {
+		w.Emit(vt.M{"ev": "error", "pk": v.pk, "spi": kind, "err": fmt.Sprint(err), "path": vt.Ints(p.rawPath)})
+		return
+	}
+	flips := [][]any{}
+	observe := func(field string, off, bit int, q *authPkt) {
+		m, built, err := q.mac()
+		switch {
+		case !built:
+			flips = append(flips, []any{field, off, bit, 0, 0})
+		case err != nil: // the real code refuses the flipped packet: no authenticator at all
+			flips = append(flips, []any{field, off, bit, 1, 1})
+		case bytes.Equal(m, base):
+			flips = append(flips, []any{field, off, bit, 0, 1})
+		default:
+			flips = append(flips, []any{field, off, bit, 1, 1})
+		}
+	}
+	for _, f := range scalarFields {
+		if addrOnly && f.name != "dt" && f.name != "dl" && f.name != "st" && f.name != "sl" && f.name != "tc" {
+			continue
+		}
+		for k := 0; k < f.bits; k++ {
+			q := p.clone()
+			q.flipScalar(f.name, k)
+			observe(f.name, 0, k, q)
+		}
+	}
+	byteFields := []struct {
+		name string
+		get  func(*authPkt) []byte
+	}{{"dstia", func(q *authPkt) []byte { return q.dstIA[:] }}, {"srcia", func(q *authPkt) []byte { return q.srcIA[:] }},
+		{"dsthost", func(q *authPkt) []byte { return q.dst }}, {"srchost", func(q *authPkt) []byte { return q.src }},
+		{"path", func(q *authPkt) []byte { return q.rawPath }}, {"payload", func(q *authPkt) []byte { return q.pld }}}
+	for _, f := range byteFields {
+		nb := len(f.get(p))
+		if addrOnly && (f.name == "path" || f.name == "payload") {
+			continue
+		}
+		for off := 0; off < nb; off++ {
+			if addrOnly && !vt.Thorough() && off != 0 && off != nb-1 && rng.Intn(4) != 0 {
+				continue
+			}
+			if f.name == "payload" && off >= 8 && off < nb-8 && rng.Intn(8) != 0 {
+				continue
+			}
+			for k := 0; k < 8; k++ {
+				q := p.clone()
+				f.get(q)[off] ^= 1 << uint(k)
+				observe(f.name, off, k, q)
+			}
+		}
+	}
+	if addrOnly {
+		w.Emit(vt.M{"ev": "auth", "pk": v.pk, "rep": v.rep, "segs": []int{v.segs[0], v.segs[1], v.segs[2]}, "spi": kind,
+			"dl": len(p.dst), "sl": len(p.src), "pathlen": len(p.rawPath), "flips": flips})
+		return
+	}
+	q := p.clone()
+	q.pld = append(q.pld, 0)
+	observe("payloadsize", 0, 0, q)
+	if len(p.pld) > 0 {
+		q = p.clone()
+		q.pld = q.pld[:len(q.pld)-1]
+		observe("payloadsize", 1, 0, q)
+	}
+	w.Emit(vt.M{"ev": "auth", "pk": v.pk, "rep": v.rep, "segs": []int{v.segs[0], v.segs[1], v.segs[2]}, "spi": kind,
+		"dl": len(p.dst), "sl": len(p.src), "pathlen": len(p.rawPath), "flips": flips})
 }
